@@ -18,7 +18,7 @@ import json, os, re
 
 META = {
  "engine": "tla-stor",
- "text": "TLC exhausts Stor.tla (PlusCal, one label per atomic operation of Alloc/extend; 3 allocators x 1 allocation and 2 x 2 in quick, 2 x 3 / 3 x 1 / 2 x 2 with chunk 4 in thorough, 3 x 2 by simulation) for disjointness, no chunk straddling, within size, and termination (returns or panics); TLC-generated interleavings with a chunk crossing are executed step by step on the real Stor with goroutines parked at verif gates between all atomic operations, plus seeded random walks over the gates and a free-running stress; every returned (offset, slice) is validated by TLC trace validation, and the gated runs are additionally checked step by step against the model",
+ "text": "TLC exhausts Stor.tla (PlusCal, one label per atomic operation of Alloc/extend; 3 allocators x 1 allocation and 2 x 2 in quick, 3 x 1 / 2 x 2 with chunk 4 and 2 x 3 with chunk 2 in thorough, 3 x 2 by simulation) for disjointness, no chunk straddling, within size, and termination (returns or panics); TLC-generated interleavings with a chunk crossing are executed step by step on the real Stor with goroutines parked at verif gates between all atomic operations, plus seeded random walks over the gates and a free-running stress; every returned (offset, slice) is validated by TLC trace validation, and the gated runs are additionally checked step by step against the model",
  "note": "trusts TLC, the placement of the stor.* gates immediately before each atomic operation, sequential consistency of Go atomics (the model interleaves atomic operations), heap stor instead of mmap; bounds in evidence",
  "technique": "TLA+/PlusCal model checking (TLC) + schedule-guided execution of the real code through gates + TLC trace validation",
 }
@@ -100,10 +100,10 @@ def run(ctx):
     # 2. schedules from TLC (3 x 2 behaviours contain the 3 x 1 and 2 x 2 interleavings)
     sched = os.path.join(ctx.work, "schedules.txt")
     open(sched, "w").close()
-    nsched = gen_schedules(ctx, "StorSim_32.cfg", 600 if th else 60, sched)
+    nsched = gen_schedules(ctx, "StorSim_32.cfg", 150 if th else 60, sched)
     if th:
-        nsched += gen_schedules(ctx, "StorSim_22.cfg", 400, sched)
-        nsched += gen_schedules(ctx, "StorSim_31.cfg", 400, sched)
+        nsched += gen_schedules(ctx, "StorSim_22.cfg", 100, sched)
+        nsched += gen_schedules(ctx, "StorSim_31.cfg", 100, sched)
     if nsched == 0:
         raise Infra("no schedules generated")
     ctx.cov["tlc_schedules"] = nsched
@@ -111,18 +111,18 @@ def run(ctx):
     # 3. real code
     drv = ctx.go_build("stor")
     gated = os.path.join(ctx.work, "stor-gated.ndjson")
-    rc, out, summ = ctx.driver(drv, ["gated", gated, sched, 3000 if th else 200, 4, 3, 2], timeout=900)
+    rc, out, summ = ctx.driver(drv, ["gated", gated, sched, 1000 if th else 200, 4, 3, 2], timeout=900)
     if rc != 0:
         raise Infra("stor driver failed rc=%d\n%s" % (rc, out[-3000:]))
     if not summ.get("gates_seen"):
         raise Infra("no stor.* gate was reached: db19/stor/stor.go has no verif gates in this tree "
                     "(hook commit 'verif: gates between the atomic operations of Stor.Alloc/extend' missing?)")
     gated8 = os.path.join(ctx.work, "stor-gated8.ndjson")
-    rc, out, summ8 = ctx.driver(drv, ["gated", gated8, "-", 2000 if th else 150, 8, 4, 3], timeout=900)
+    rc, out, summ8 = ctx.driver(drv, ["gated", gated8, "-", 600 if th else 150, 8, 4, 3], timeout=900)
     if rc != 0:
         raise Infra("stor driver failed rc=%d\n%s" % (rc, out[-3000:]))
     free = os.path.join(ctx.work, "stor-free.ndjson")
-    rc, out, summf = ctx.driver(drv, ["free", free, 60 if th else 6], timeout=900)
+    rc, out, summf = ctx.driver(drv, ["free", free, 30 if th else 6], timeout=900)
     if rc != 0:
         raise Infra("stor driver failed rc=%d\n%s" % (rc, out[-3000:]))
     ctx.sample_trace_lines(gated, 8)
